@@ -164,7 +164,12 @@ FailRemove ==
   /\ pc' = "done" /\ err' = TRUE
   /\ UNCHANGED <<tmpMode, wr, okflag, panicked>>
 
-Next == OpenExcl \/ Stat \/ CreateTemp \/ Fchmod \/ OpenFailClose \/ OpenFailRemove \/ Write \/ BodyErr \/ BodyIgnoresErr \/ BodyDone \/ DeferredFlush \/ Unwind
+(* after a failed open the caller closes its input itself; that close can fail as well and changes nothing *)
+CallerCloseFails ==
+  /\ pc = "done" /\ err /\ CanFault /\ faults' = faults + 1
+  /\ UNCHANGED <<pc, out, tmp, outMode, tmpMode, wr, okflag, err, panicked, rmFailed>>
+
+Next == CallerCloseFails \/ OpenExcl \/ Stat \/ CreateTemp \/ Fchmod \/ OpenFailClose \/ OpenFailRemove \/ Write \/ BodyErr \/ BodyIgnoresErr \/ BodyDone \/ DeferredFlush \/ Unwind
         \/ CommitCloseOut \/ CommitCloseIn \/ Rename \/ FailCloseIn \/ CleanupCloseOut \/ CleanupCloseIn \/ FailRemove
 Spec == Init /\ [][Next]_vars /\ WF_vars(Next)
 
